@@ -877,6 +877,10 @@ class Manager:
 
             self.fire(exception(*err, handler=None, fevent=event))
 
+            # the failed generator is finished, too
+            event.waitingHandlers -= 1
+            self._eventDone(event, err)
+
     def tick(self, timeout=-1):
         """
         Execute all possible actions once. Process all registered tasks
